@@ -73,7 +73,9 @@ def variant(draw, shape, default):
             "as": draw(st.sampled_from(["tensor", "root", "unowned"])),
             # the last top-level element is attached by hand (Fiber.append of a value / an unowned
             # sub-fiber) instead of through the tensor: counting and equality must follow the tree
-            "hand": draw(st.sampled_from([False, False, True]))}
+            "hand": draw(st.sampled_from([False, False, True])),
+            # rank formats are configuration, not content
+            "fmtU": draw(st.sampled_from([0, 0, 0, 1, 2, 3]))}
 
 
 @st.composite
@@ -110,6 +112,9 @@ def realise(base, v, cont):
         t.getRoot().append(c_last, sub)
     else:
         t = build.build_tensor(spec, v["route"])
+    for i, r in enumerate(spec["rank_ids"]):
+        if v.get("fmtU", 0) >> i & 1 and i < 2:
+            t.setFormat(r, "U")
     return spec, (t if v["as"] == "tensor" else t.getRoot()), t
 
 
